@@ -17,6 +17,69 @@ int main(int argc, char** argv) {
         if (r && got) { std::printf("REPRODUCED class=reserved-item-popped buffer_node<int> holding {1}: try_reserve granted %d, then try_get ALSO returned %d (message handed out twice); after try_consume the buffer has head > tail: try_put(2) was accepted but try_get then %s\n", v, w, got2 ? "succeeded" : "FAILED (message 2 lost)"); return 0; }
         std::printf("NOT-REPRODUCED\n"); return 0;
     }
+    if (job.find("async.") != std::string::npos) {
+        // async_node: what the activity of a node submits through the gateway must reach THIS node's successors - for a constructed node, for a copy, and after reset(rf_reset_bodies)
+        typedef flow::async_node<int, int> an_t;
+        flow::graph g;
+        std::atomic<int> got_a{0}, got_b{0}, reserved{0};
+        an_t a(g, flow::unlimited, [&](int v, an_t::gateway_type& gw) { gw.reserve_wait(); ++reserved; gw.try_put(v); gw.release_wait(); });
+        an_t b(a);
+        flow::function_node<int, int> sa(g, flow::unlimited, [&](int v) { ++got_a; return v; }), sb(g, flow::unlimited, [&](int v) { ++got_b; return v; });
+        flow::make_edge(flow::output_port<0>(a), sa); flow::make_edge(flow::output_port<0>(b), sb);
+        // white box (compiled with -fno-access-control): the gateway pointers of both bodies of both nodes
+        auto gwp = [](an_t& n, bool init) { return static_cast<an_t::async_body_base_type*>((init ? n.my_init_body : n.my_body)->get_body_ptr())->my_gateway; };
+        const char* who = nullptr;
+        if (gwp(a, false) != &a.my_gateway) who = "the running body of the constructed node"; else if (gwp(a, true) != &a.my_gateway) who = "the initial body of the constructed node";
+        else if (gwp(b, false) != &b.my_gateway) who = "the running body of the copy"; else if (gwp(b, true) != &b.my_gateway) who = "the initial body of the copy";
+        for (int round = 0; round < 3; ++round) {
+            int a0 = got_a, b0 = got_b;
+            b.try_put(10 + round); g.wait_for_all();
+            if (got_b != b0 + 1 || got_a != a0) {
+                std::printf("REPRODUCED class=async-gateway-of-other-node async_node<int,int> b(a) copied from a%s: a message put to the COPY b was submitted by b's body through a gateway that delivered it to %s (successor of a got %d, successor of b got %d)%s%s\n",
+                            round ? ", after g.reset(rf_reset_bodies)" : "", got_a != a0 ? "a's successor" : "nobody", got_a - a0, got_b - b0, who ? "; gateway pointer not of this node in " : "", who ? who : "");
+                return 0;
+            }
+            a.try_put(20 + round); g.wait_for_all();
+            if (got_a != a0 + 1 || got_b != b0 + 1) { std::printf("REPRODUCED class=async-gateway-of-other-node message put to the source node a reached a's successor %d times, b's successor %d times\n", got_a - a0, got_b - b0 - 1); return 0; }
+            g.reset(flow::rf_reset_bodies);
+        }
+        if (who) { std::printf("REPRODUCED class=async-gateway-pointer %s carries the gateway of another node\n", who); return 0; }
+        std::printf("NOT-REPRODUCED\n"); return 0;
+    }
+    if (job.find("join.") != std::string::npos) {
+        // join_node: messages put to the ports of a constructed node / of a COPY must build tuples of that node only (queueing and reserving policies, 1..3 ports)
+        bool reserving_policy = job.find("reserving") != std::string::npos;
+        auto run = [&](auto tag, const char* pol) -> bool {
+            typedef flow::join_node<std::tuple<int, int, int>, decltype(tag)> jn_t;
+            flow::graph g; std::atomic<int> got_a{0}, got_b{0};
+            flow::buffer_node<int> s0(g), s1(g), s2(g), t0(g), t1(g), t2(g);      // sources (buffering, so that a reserving join can pull)
+            jn_t a(g); jn_t b(a);
+            flow::function_node<std::tuple<int, int, int>, int> fa(g, flow::unlimited, [&](const std::tuple<int, int, int>&) { ++got_a; return 0; }), fb(g, flow::unlimited, [&](const std::tuple<int, int, int>&) { ++got_b; return 0; });
+            flow::make_edge(a, fa); flow::make_edge(b, fb);
+            flow::make_edge(s0, flow::input_port<0>(a)); flow::make_edge(s1, flow::input_port<1>(a)); flow::make_edge(s2, flow::input_port<2>(a));
+            flow::make_edge(t0, flow::input_port<0>(b)); flow::make_edge(t1, flow::input_port<1>(b)); flow::make_edge(t2, flow::input_port<2>(b));
+            t0.try_put(1); t1.try_put(2); t2.try_put(3); g.wait_for_all();
+            if (got_b != 1 || got_a != 0) { std::printf("REPRODUCED class=join-port-owner %s join_node b(a): one message put to each port of the COPY b: b produced %d tuples, the source a produced %d (expected 1 and 0)\n", pol, got_b.load(), got_a.load()); return true; }
+            s0.try_put(1); s1.try_put(2); s2.try_put(3); g.wait_for_all();
+            if (got_a != 1 || got_b != 1) { std::printf("REPRODUCED class=join-port-owner %s join_node: one message put to each port of the source a: a produced %d tuples, b %d (expected 1 and 1)\n", pol, got_a.load(), got_b.load()); return true; }
+            return false;
+        };
+        if (reserving_policy ? run(flow::reserving(), "reserving") : run(flow::queueing(), "queueing")) return 0;
+        std::printf("NOT-REPRODUCED\n"); return 0;
+    }
+    if (job.find("indexer.") != std::string::npos) {
+        typedef flow::indexer_node<int, float, int> ix_t;
+        flow::graph g; std::atomic<int> got_a{0}, got_b{0}, bad_tag{0};
+        ix_t a(g); ix_t b(a);
+        auto chk = [&](std::atomic<int>& cnt) { return [&](const ix_t::output_type& m) { ++cnt; if (!((m.tag() == 0 && flow::cast_to<int>(m) == 7) || (m.tag() == 1 && flow::cast_to<float>(m) == 2.5f) || (m.tag() == 2 && flow::cast_to<int>(m) == 9))) ++bad_tag; return 0; }; };
+        flow::function_node<ix_t::output_type, int> fa(g, flow::serial, chk(got_a)), fb(g, flow::serial, chk(got_b));
+        flow::make_edge(a, fa); flow::make_edge(b, fb);
+        flow::input_port<0>(b).try_put(7); flow::input_port<1>(b).try_put(2.5f); flow::input_port<2>(b).try_put(9); g.wait_for_all();
+        if (got_b != 3 || got_a != 0 || bad_tag) { std::printf("REPRODUCED class=indexer-port-owner indexer_node b(a): 3 messages put to the ports of the COPY b: b's successor got %d, a's successor got %d, %d with a wrong tag/value\n", got_b.load(), got_a.load(), bad_tag.load()); return 0; }
+        flow::input_port<0>(a).try_put(7); flow::input_port<2>(a).try_put(9); g.wait_for_all();
+        if (got_a != 2 || got_b != 3 || bad_tag) { std::printf("REPRODUCED class=indexer-port-owner indexer_node a: 2 messages put to its ports: a's successor got %d, b's %d (expected 2, 3), %d with a wrong tag\n", got_a.load(), got_b.load(), bad_tag.load()); return 0; }
+        std::printf("NOT-REPRODUCED\n"); return 0;
+    }
     if (job.find("handle.") != std::string::npos) {
         // a buffering node must offer the remaining items again after a reservation is consumed / released, a successor is added, or an item is put
         for (int how = 0; how < 2; ++how) {
